@@ -32,6 +32,8 @@ BOUNDS = (0, 1, 2, 3, 31, 32, 33, 254, 255, 256)
 
 def rlen(rng, big=600, lo=0, hi=None):
     """a length in [lo, min(big, hi)], mostly a boundary value"""
+    if MINIMAL:                      # count ladder, minimal variant: every variable-length field as short as it may be
+        return lo
     m = big if hi is None else min(big, hi)
     m = max(m, lo)
     if rng.random() < 0.8:
@@ -43,6 +45,7 @@ def rlen(rng, big=600, lo=0, hi=None):
 
 MANY = 0.03
 FORCED = None
+MINIMAL = False
 MANY_COUNTS = (15, 16, 17, 31, 32, 33, 63, 64, 65, 100, 127, 128, 129, 255, 256, 257, 400)
 
 
@@ -1236,18 +1239,19 @@ def corruptions(case, rng, limit=None):
 def count_ladder(rng, families, counts=None):
     """one case per (family, count): the first list generated for the case gets exactly `count` entries - every count an
     implementation might use as a limit is exercised deterministically, not only when the dice say so"""
-    global FORCED
+    global FORCED, MINIMAL
     out = []
     for name in families:
         for k in (counts or MANY_COUNTS):
-            FORCED = k
-            try:
-                cs = FAMILIES[name](rng, 1)
-            finally:
-                FORCED = None
-            for c in cs:
-                c.fam = name + '/count%d' % k
-                out.append(c)
+            for minimal in (False, True):   # ordinary element sizes, and the smallest elements the grammar allows
+                FORCED, MINIMAL = k, minimal
+                try:
+                    cs = FAMILIES[name](rng, 1)
+                finally:
+                    FORCED, MINIMAL = None, False
+                for c in cs:
+                    c.fam = name + '/count%d%s' % (k, 'min' if minimal else '')
+                    out.append(c)
     return out
 
 
